@@ -97,9 +97,11 @@ fn server_profile() -> Profile {
     let mut p = Profile::general();
     p.json_safe = true;
     p.wild_values = false;
-    p.w_insert_index = 3;
+    // index creation and removal at a weight where "remove an index, fail, fail again" occurs
+    p.w_insert_index = 7;
+    p.w_remove_index = 5;
     p.w_reads = 8;
-    p.invalid_pct = 6;
+    p.invalid_pct = 10;
     p
 }
 
@@ -303,7 +305,24 @@ fn batch_case() -> impl Strategy<Value = BatchCase> {
         1 => ((0u8..6), vgen::kv_list(&p, 2)).prop_map(|(k, kvs)| BQ::InsertValuesRef(k, kvs)),
     ];
     let batch = (prop::collection::vec(bq, 1..8), any::<bool>(), prop_oneof![9 => Just(false), 1 => Just(true)]).prop_map(|(queries, by_writer, use_exec)| Batch { queries, by_writer, use_exec });
-    (0u8..3, prop::collection::vec(batch, 3..10)).prop_map(|(kind, mut batches)| {
+    (0u8..3, prop::collection::vec(batch, 3..10), 0u8..4, any::<u16>(), 0usize..8).prop_map(|(kind, mut batches, episode, at, key)| {
+        if episode == 0 {
+            // an episode that only shows over several batches: an index exists, a failing batch
+            // removes it before it fails, and the very next mutating batch fails as well
+            let k = crate::val::key_pool()[key].clone();
+            let fail = || BQ::Q(CQuery::InsertEdges { from: QIds::Ids(vec![QId::Missing(0, true)]), to: QIds::Ids(vec![QId::Id(1)]), ids: QIds::Ids(vec![]), values: QVals::Single(vec![]), each: false });
+            let value = BQ::Q(CQuery::InsertValues { ids: QIds::Ids(vec![QId::Id(1), QId::Id(2)]), values: QVals::Single(vec![(k.clone(), Val::I64(7))]) });
+            let ep = vec![
+                Batch { queries: vec![value, BQ::Q(CQuery::InsertIndex(k.clone()))], by_writer: false, use_exec: false },
+                Batch { queries: vec![BQ::Q(CQuery::RemoveIndex(k.clone())), fail()], by_writer: true, use_exec: false },
+                Batch { queries: vec![BQ::Q(CQuery::InsertNodes { count: 1, values: QVals::Single(vec![]), aliases: vec![], ids: QIds::Ids(vec![]) }), fail()], by_writer: false, use_exec: false },
+                Batch { queries: vec![BQ::Q(CQuery::SelectIndexes)], by_writer: false, use_exec: true },
+            ];
+            let p = crate::core::pick(at, batches.len() + 1);
+            for (i, b) in ep.into_iter().enumerate() {
+                batches.insert(p + i, b);
+            }
+        }
         // something to refer to
         batches.insert(
             0,
@@ -316,7 +335,7 @@ fn batch_case() -> impl Strategy<Value = BatchCase> {
 pub fn c25(ctx: &mut Ctx) {
     ctx.rule = "sequences of 4-10 batches (1-7 queries each, from the history grammar in QueryType form: reads, writes, queries failing at position k through missing ids / invalid references, result references ':n' pointing at earlier, later or out-of-range results, mutating queries sent to the read-only exec endpoint) submitted by the owner and by a write-role user to memory, mapped and file databases of a real server process. Oracle: the reference model is applied per batch; if any query of the batch is predicted to fail the response must be an error and the canonical dump read back through exec must equal the dump before (order-insensitive); otherwise every result must match and the dump must equal the model; after every batch the audit endpoint must list exactly the mutating queries (after result injection) of the applied batches, in order, with the submitting user. evaluations = batches. Non-trivial: a failing batch whose failure comes after >=1 successful mutating query. Distinct = hash of the case.".into();
     ctx.assumptions.push("values are restricted to those that survive JSON (no NaN / infinity)".into());
-    let cases = ctx.tier.pick(90, 2500);
+    let cases = ctx.tier.pick(130, 2500);
     replay_saved::<BatchCase, _>(ctx, "c25-batches", c25_case);
     run_campaign(ctx, CampaignCfg { name: "c25-batches", cases, max_shrink_iters: 300, max_restarts: 2 }, batch_case, c25_case);
     stop_server();
